@@ -17,6 +17,7 @@ type ReaderAt struct {
 	data []byte
 	w    *simrt.World
 	id   uint64
+	rel  string
 }
 
 func (r *ReaderAt) Close() error {
@@ -25,6 +26,7 @@ func (r *ReaderAt) Close() error {
 	}
 	if r.w != nil {
 		r.w.MappingClosed(r.id)
+		r.w.Emit(simrt.Event{Kind: "munmap", Path: r.rel})
 		r.w = nil
 	}
 	if len(r.data) == 0 {
@@ -81,6 +83,8 @@ func Open(filename string) (*ReaderAt, error) {
 	if w := simrt.W(); w != nil {
 		if rel, ok := w.Rel(filename); ok {
 			r.w = w
+			r.rel = rel
+			w.Emit(simrt.Event{Kind: "mmap", Path: rel})
 			data := r.data
 			r.id = w.MappingOpened(rel, func() {
 				if len(data) > 0 {
